@@ -465,6 +465,17 @@ func (p *PropertyGenerator) hasURIKind() bool {
 	return false
 }
 
+// hasTextKind returns true if this property has a Kind that holds text: a
+// string or a natural language string.
+func (p *PropertyGenerator) hasTextKind() bool {
+	for _, k := range p.kinds {
+		if k.isValue() && (k.Name.LowerName == "string" || k.Name.LowerName == "langString") {
+			return true
+		}
+	}
+	return false
+}
+
 // hasTypeKind returns true if this property has a Kind that is a type.
 func (p *PropertyGenerator) hasTypeKind() bool {
 	for _, k := range p.kinds {
